@@ -44,6 +44,7 @@ class FnSpec:
         self.bodysub = []         # [(regex, repl)] applied to the body only (documented per unit)
         self.opens = False
         self.props = []           # properties this function's contract serves (empty = all of the unit's)
+        self.lift_nested = False  # R13: nested `fn` items are removed from the body (they are extracted as top-level items)
 
 
 class Unit:
@@ -108,6 +109,16 @@ class Unit:
                 self.name = arg
             elif d == "property":
                 self.properties = arg.split()
+            elif d == "import":
+                # merge every directive of another unit (its sources, rewrites, prelude, contracts)
+                other = Unit(os.path.join(base, arg))
+                self.sources += other.sources
+                self.prelude += other.prelude
+                self.postlude += other.postlude
+                self.rewrites += other.rewrites
+                self.includes += other.includes + [arg]
+                for k, v in other.fns.items():
+                    self.fns.setdefault(k, v)
             elif d == "include":
                 inc = open(os.path.join(base, arg)).read()
                 self.prelude.append("// ---- include %s ----\n%s" % (arg, inc))
@@ -165,6 +176,8 @@ class Unit:
                 curfn.attrs.append(arg)
             elif d == "external_body":
                 curfn.external_body = True
+            elif d == "lift-nested":
+                curfn.lift_nested = True
             elif d == "sigsub" or d == "bodysub":
                 mm = re.match(r"/(.*)/\s*=>\s*(.*)$", arg)
                 (curfn.sigsub if d == "sigsub" else curfn.bodysub).append((mm.group(1), mm.group(2)))
@@ -369,12 +382,22 @@ def r_pub_item(text):
     return head + "pub " + rest
 
 
+def r_unreachable(text):
+    """R4b: unreachable!("fmt {x}", ..) / panic!("..") -> same macro without arguments (message dropped)"""
+    for name in ("unreachable", "panic"):
+        toks = rs.lex(text)
+        spans = [(toks[k].start, toks[e].end, "()") for i, k, e in _macro_calls(toks, name) if e > k + 1]
+        text = _replace_spans(text, spans)
+    return text
+
+
 def generic_rewrites(text):
     text = rs.strip_comments(text)
     text = rs.strip_attrs(text, _keep_attr)
     text = r_derive(text)
     text = r_vis(text)
     text = r_err(text)
+    text = r_unreachable(text)
     text = r_debug_assert(text)
     text = r_compound(text)
     text = r_closure_underscore(text)
@@ -685,6 +708,13 @@ def splice_fn(text, spec, unit_rewrites=()):
     text = r_local_const(text)
     header, ret, where, body = _fn_parts(text)
     lost = []
+    if spec is not None and spec.lift_nested:
+        btoks = rs.lex(body)
+        nested = [it for it in rs.scan_items(btoks, 0, len(btoks)) if it.kind == "fn"]
+        for it in sorted(nested, key=lambda x: -x.tstart):
+            body = body[:btoks[it.tstart].start] + body[btoks[it.tend - 1].end:]
+        if not nested:
+            lost.append("lift-nested: no nested fn found")
     if spec is not None:
         for rx, rp in spec.sigsub:
             header = re.sub(rx, rp, header)
